@@ -106,20 +106,30 @@ class HistoryRun:
                 return self
             sids = {}
             srv_.timeout = 20.0        # one request may take this long before it counts as unanswered (the machine may be loaded by parallel checks)
-            for rq in self.requests:
+            def wire(rq):
+                if rq["kind"] == "proper":
+                    return "GetProperCandidates", {"input": rq["input"]}
+                if rq["kind"] == "convert":
+                    params = {"input": rq["input"]}
+                    if rq.get("context", "Normal") != "Normal" or rq.get("explicit_ctx"):
+                        params["context"] = {"kind": rq.get("context", "Normal")}
+                    return "GetCandidates", params
+                return "RegisterWord", {"kind": rq["wkind"], "reading": rq["reading"], "word": rq["word"]}
+            pending = {}           # request index -> (status, result) answered as part of a JSON-RPC batch
+            for qi, rq in enumerate(self.requests):
                 kind = rq["kind"]
                 if srv_.timeouts >= 2:
                     break              # two unanswered requests are reported; the rest of the history would only wait
+                if rq.get("batch") is not None and qi not in pending:
+                    # consecutive requests with the same batch mark travel as ONE JSON-RPC batch (an array); the server answers an array
+                    grp = [j for j in range(qi, len(self.requests)) if self.requests[j].get("batch") == rq["batch"]]
+                    grp = [j for k_, j in enumerate(grp) if j == qi + k_]
+                    answers = srv_.call_batch([wire(self.requests[j]) for j in grp])
+                    for j, a in zip(grp, answers):
+                        pending[j] = a
                 if kind in ("convert", "proper"):
-                    ctx = rq.get("context", "Normal")
-                    if kind == "proper":
-                        st, r = srv_.call("GetProperCandidates", {"input": rq["input"]})
-                        ctx = "Proper"
-                    else:
-                        params = {"input": rq["input"]}
-                        if ctx != "Normal" or rq.get("explicit_ctx"):
-                            params["context"] = {"kind": ctx}
-                        st, r = srv_.call("GetCandidates", params)
+                    ctx = rq.get("context", "Normal") if kind == "convert" else "Proper"
+                    st, r = pending[qi] if qi in pending else srv_.call(*wire(rq))
                     if st != "ok":
                         self.problems.append((f"conversion of {rq['input']!r} is not answered: {st} {r}", {"request": rq}))
                         self.events.append(({"t": "convert", "input": rq["input"], "ctx": ctx}, None))
@@ -160,7 +170,7 @@ class HistoryRun:
                     if not ok:
                         self.problems.append(("a learned compound is never applied to the dictionary (updater dead?)", {"request": rq, "dump": dmp}))
                 elif kind == "register":
-                    st, r = srv_.call("RegisterWord", {"kind": rq["wkind"], "reading": rq["reading"], "word": rq["word"]})
+                    st, r = pending[qi] if qi in pending else srv_.call(*wire(rq))
                     ok, dmp = srv_.quiesce()
                     self.events.append(({"t": "register", "wkind": rq["wkind"], "reading": rq["reading"], "word": rq["word"]}, {} if st == "ok" else ("rejected" if st == "error" else ("failed" if st == "closed" else None))))
                     if st == "timeout":
@@ -391,7 +401,12 @@ def model_histories(res, name, runs):
         return 0
     cases, idx = [], []
     for i, hr in enumerate(runs):
-        c = coq_history(hr)
+        try:
+            c = coq_history(hr)
+        except Exception as e:
+            # what the server reports (Verif.Dump, the saved table) is no longer in the shape the model's cases are rendered from
+            res.tie_broken("correspondence: a request history can no longer be rendered as a case of the server model", {"error": repr(e), "requests": hr.requests, "final": hr.final})
+            continue
         if c is not None:
             cases.append(c)
             idx.append(i)
@@ -479,6 +494,25 @@ def gen_history(rnd, length=12, with_restart=True, malformed=False, guess=True):
         else:
             reqs.append({"kind": "convert", "input": an_input(), "context": "Normal"})
             nconv += 1
+    # JSON-RPC batches (one HTTP request carrying an array): runs of conversions, and a run of registrations of homophones, travel as one
+    # batch in some histories.  Drawn from a generator of their own so that the rest of the history is what it was without batches.
+    brnd = random.Random(json.dumps(reqs, ensure_ascii=False, sort_keys=True))
+    if brnd.random() < 0.3:
+        r = "".join(brnd.choice(alpha) for _ in range(brnd.randint(1, 3)))
+        grp = [{"kind": "register", "wkind": brnd.choice(["CommonNoun", "ProperNoun"]), "reading": r, "word": w, "batch": 1000}
+               for w in brnd.sample(KANJI, brnd.randint(2, 4))]
+        at = brnd.randint(0, len(reqs))
+        reqs[at:at] = grp + [{"kind": "convert", "input": r, "context": "Normal"}]
+    bid, i = 0, 0
+    while i < len(reqs):
+        j = i
+        while j < len(reqs) and reqs[j]["kind"] in ("convert", "proper") and "batch" not in reqs[j]:
+            j += 1
+        if j - i >= 2 and brnd.random() < 0.3:
+            bid += 1
+            for q in reqs[i:j]:
+                q["batch"] = bid
+        i = max(j, i + 1)
     if with_restart:
         reqs.insert(rnd.randint(len(reqs) // 2, len(reqs)), {"kind": "restart"})
     if rnd.random() < 0.5:
